@@ -190,4 +190,117 @@ theorem top_replace_pq_iff (pq : PQ) (x : Item) (h0 : 0 < pq.length) (hh : IsHea
     · rw [pqView_kf, List.getElem?_eq_getElem hl]
       exact h2 _ (List.getElem?_eq_getElem hl)
 
+/-! ## popping a heap until it is empty -/
+
+/-- `for pq.Len() > 0 { out = append(out, heap.Pop(&pq)) }` (fuel = number of pops allowed) -/
+def popAll : Nat → PQ → List Item
+  | 0, _ => []
+  | f + 1, pq =>
+    match pq with
+    | [] => []
+    | _ :: _ =>
+      match heapPop pq with
+      | some (pq', x) => x :: popAll f pq'
+      | none => []
+
+/-- popping a heap of any size until it is empty delivers every item once, in key order -/
+theorem popAll_spec : ∀ (f : Nat) (pq : PQ), pq.length ≤ f → IsHeapPQ pq →
+    ((popAll f pq).map core).Perm (pq.map core) ∧
+    (popAll f pq).Pairwise (fun a b => a.key ≤ b.key) := by
+  intro f
+  induction f with
+  | zero =>
+    intro pq hl _
+    have : pq = [] := List.eq_nil_of_length_eq_zero (by omega)
+    subst this; simp [popAll]
+  | succ f ih =>
+    intro pq hl hh
+    cases hpq : pq with
+    | nil => simp [popAll]
+    | cons a t =>
+      have hne : pq ≠ [] := by rw [hpq]; simp
+      obtain ⟨pq', x, hpop, hperm, hh', hmin, _⟩ := heapPop_spec pq hne hh
+      have hlen' : pq'.length + 1 = pq.length := by
+        have := hperm.length_eq; simpa using this
+      have hrec := ih pq' (by omega) hh'
+      have hunf : popAll (f + 1) (a :: t) = x :: popAll f pq' := by
+        rw [← hpq]
+        cases hq : pq with
+        | nil => exact absurd hq hne
+        | cons a' t' =>
+          simp only [popAll]
+          rw [← hq, hpop]
+      rw [hunf]
+      constructor
+      · rw [← hpq]
+        simp only [List.map_cons]
+        exact (List.Perm.cons _ hrec.1).trans hperm
+      · rw [List.pairwise_cons]
+        refine ⟨?_, hrec.2⟩
+        intro b hb
+        have h1 : core b ∈ (popAll f pq').map core := List.mem_map_of_mem hb
+        have h2 : core b ∈ pq'.map core := hrec.1.subset h1
+        have h3 : core b ∈ pq.map core := hperm.subset (List.mem_cons_of_mem _ h2)
+        exact hmin _ h3
+
+/-! ## any sequence of queue calls -/
+
+/-- one call on the queue as area `tableheap` issues them: the item in a slot replaced + `heap.Fix`
+at that slot, `heap.Pop`, `Push; Fix(item.index)` -/
+inductive QOp where
+  | fix (slot : Nat) (x : Item)
+  | pop
+  | push (x : Item)
+
+/-- `none` = the call panics in Go (slot out of range, Pop of an empty queue) -/
+def QOp.run (pq : PQ) : QOp → Option PQ
+  | .fix slot x => if slot < pq.length then some (heapFix pqIface (pq.set slot x) slot) else none
+  | .pop => if pq.length > 0 then (heapPop pq).map (·.1) else none
+  | .push x => pqUpdate (pqPush pq x) (pq.length : Int)
+
+def QOp.runAll : PQ → List QOp → Option PQ
+  | pq, [] => some pq
+  | pq, op :: rest => (op.run pq).bind (fun pq1 => QOp.runAll pq1 rest)
+
+theorem QOp.run_heap (pq pq' : PQ) (op : QOp) (hh : IsHeapPQ pq) (hr : op.run pq = some pq') :
+    IsHeapPQ pq' := by
+  cases op with
+  | fix slot x =>
+    simp only [QOp.run] at hr
+    split at hr
+    · rename_i hs
+      cases hr
+      exact (heapFix_pq_spec pq slot x hs hh).1
+    · cases hr
+  | pop =>
+    simp only [QOp.run] at hr
+    split at hr
+    · rename_i hs
+      have hne : pq ≠ [] := by intro h; subst h; simp at hs
+      obtain ⟨pq2, x, hpop, _, hh2, _, _⟩ := heapPop_spec pq hne hh
+      rw [hpop] at hr
+      simp at hr
+      subst hr; exact hh2
+    · cases hr
+  | push x =>
+    simp only [QOp.run] at hr
+    obtain ⟨pq3, h3, _, hh3⟩ := pushFix_spec pq x hh
+    rw [h3] at hr
+    cases hr; exact hh3
+
+theorem QOp.runAll_heap : ∀ (ops : List QOp) (pq pq' : PQ), IsHeapPQ pq →
+    QOp.runAll pq ops = some pq' → IsHeapPQ pq' := by
+  intro ops
+  induction ops with
+  | nil => intro pq pq' hh hr; simp [QOp.runAll] at hr; subst hr; exact hh
+  | cons op rest ih =>
+    intro pq pq' hh hr
+    simp only [QOp.runAll] at hr
+    cases h1 : op.run pq with
+    | none => rw [h1] at hr; simp at hr
+    | some pq1 =>
+      rw [h1] at hr
+      simp only [Option.bind_some] at hr
+      exact ih pq1 pq' (QOp.run_heap pq pq1 op hh h1) hr
+
 end LinVerif.MergedIter
